@@ -39,10 +39,18 @@ func runC09(c *runCfg) error {
 	nulls := []valT{{kind: "nil"}, {kind: "nilptr"}, {kind: "invalid"}}
 	run := func(class string, cols []colT, rows [][]valT, rfs [][]int) {
 		st := stmtT{id: 1, cols: cols, ret: "nil"}
-		for _, r := range rows {
+		for ri, r := range rows {
 			st.prog = append(st.prog, opT{kind: "row", vals: r})
+			if len(cols) >= 2 && ri%2 == 0 && (id+ri)%3 == 0 {
+				// a row that fails at its last column after the first fields have been encoded: the writer
+				// rejects it, sends nothing, and the next row must arrive intact
+				bad := append([]valT{}, r...)
+				bad[len(bad)-1] = valT{kind: "unenc"}
+				st.prog = append(st.prog, opT{kind: "row", vals: bad})
+			}
 		}
 		st.prog = append(st.prog, opT{kind: "complete", tag: []byte(fmt.Sprintf("SELECT %d", len(rows)))})
+		_ = id
 		cfg := cfgT{limit: 4096, auth: "none", term: "none", parse: []parseEntry{{query: []byte("q"), stmts: []stmtT{st}}}}
 		msgs := [][]byte{mParse(nil, []byte("q"), 0)}
 		for _, rf := range rfs {
